@@ -97,6 +97,20 @@ __all__ = []
 CIMXML_HEX_PATTERN = re.compile(r'^(\+|\-)?0[xX][0-9a-fA-F]+$')
 NUMERIC_CIMTYPE_PATTERN = re.compile(r'^([su]int(8|16|32|64)|real(32|64))\Z')
 
+# Value of the CIMVERSION, DTDVERSION and PROTOCOLVERSION attributes: x.y or
+# x.y.z, where x (major version), y and z are decimal numbers
+VERSION_PATTERN = re.compile(r'^([0-9]+)(\.[0-9]+){1,2}\Z')
+
+
+def is_version(value, major):
+    """
+    Return whether value is a version string x.y or x.y.z with major version
+    x equal to the string major. Unlike a test for the prefix, this rejects
+    garbage after the major version (e.g. "2.junk" or "2.0 beta").
+    """
+    m = VERSION_PATTERN.match(value)
+    return m is not None and m.group(1) == major
+
 
 def name(tup_tree):
     """
@@ -399,13 +413,13 @@ class TupleParser:
 
         self.check_node(tup_tree, 'CIM', ('CIMVERSION', 'DTDVERSION'))
 
-        if not attrs(tup_tree)['CIMVERSION'].startswith('2.'):
+        if not is_version(attrs(tup_tree)['CIMVERSION'], '2'):
             raise CIMVersionError(
                 _format("CIMVERSION is {0}, expected 2.x.y",
                         attrs(tup_tree)['CIMVERSION']),
                 conn_id=self.conn_id)
 
-        if not attrs(tup_tree)['DTDVERSION'].startswith('2.'):
+        if not is_version(attrs(tup_tree)['DTDVERSION'], '2'):
             raise DTDVersionError(
                 _format("DTDVERSION is {0}, expected 2.x.y",
                         attrs(tup_tree)['DTDVERSION']),
@@ -1805,7 +1819,7 @@ class TupleParser:
 
         self.check_node(tup_tree, 'MESSAGE', ('ID', 'PROTOCOLVERSION'))
 
-        if not attrs(tup_tree)['PROTOCOLVERSION'].startswith('1.'):
+        if not is_version(attrs(tup_tree)['PROTOCOLVERSION'], '1'):
             raise ProtocolVersionError(
                 _format("PROTOCOLVERSION is {0}, expected 1.x.y",
                         attrs(tup_tree)['PROTOCOLVERSION']),
